@@ -37,6 +37,7 @@ class StealRule(PairRule):
         self.public = False
 
     def init(self, f, eng):
+        self.awrites = set()
         return (frozenset(), frozenset(), frozenset(), frozenset())   # written, allocs, touches, eqrets
 
     def on_event(self, rs, ev, st, f, eng):
@@ -49,6 +50,9 @@ class StealRule(PairRule):
                 return (written, allocs | {(ev.ret, ev.args[1])}, touches, eqrets)
             if k in ('ALLOC_EQ', 'ALLOC_NE') and ev.ret is not None:
                 return (written, allocs, touches, eqrets | {(single_atom(ev.ret), k)})
+            if k in ('ALLOC_COPY_ASSIGN', 'ALLOC_MOVE_ASSIGN', 'ALLOC_SWAP', 'ALLOC_MOVE', 'ALLOC_COPY') and len(ev.args) >= 2 and ev.kind == 'call':
+                # recorded as a pseudo "touch" so that it travels with the path state
+                return (written, allocs, touches | {(frozenset([obj_of(ev.args[0]), obj_of(ev.args[1])]), 'ALLOCATOR:' + k, False)}, eqrets)
             eff = self.orc.effects.get(ev.callee, frozenset())
             if (eff & ELEM) or k in ELEM:
                 bases = set()
@@ -66,6 +70,44 @@ class StealRule(PairRule):
             keep = frozenset(o for o in written if not any(a in ev.args for a, c in o))
             return (keep, allocs, touches, eqrets)
         return rs
+
+    def check_allocator(self, stolen_from, touches, eqrets, st, f):
+        """R04.6: a buffer changes owner only together with its allocator, or between containers
+        whose allocators are interchangeable (compared equal on the path, always equal)."""
+        bits = self.cfg.alloc
+        if bits == 'std' or (bits & 8):
+            return
+        bn = base_name(f.pretty)
+        for dst, src in stolen_from.items():
+            moved = any(d.startswith('ALLOCATOR:') and dst in b and src in b for (b, d, cl) in touches)
+            equal = False
+            tested = False
+            for (c, v) in st.conds:
+                pos, pol = sym.strip_not(c)
+                a = single_atom(pos)
+                for (ea, ek) in eqrets:
+                    if a is not None and a == ea:
+                        tested = True
+                        val = v if pol else (not v)
+                        if (ek == 'ALLOC_EQ' and val) or (ek == 'ALLOC_NE' and not val):
+                            equal = True
+            ok = moved or equal
+            if not ok and not self.public and not tested:
+                continue     # decided by a caller (run-time equality test / overload selection)
+            dk = ('R04.6', f.name, repr(dst)[:40], ok)
+            if dk in self.reports:
+                continue
+            if ok:
+                self.reports[dk] = Report('R04.6', True, None,
+                                          sample={'function': bn, 'evidence': 'allocator transferred' if moved else 'allocators compared equal',
+                                                  'config': self.cfg.name})
+            else:
+                self.reports[dk] = Report(
+                    'R04.6', False, {'function': bn, 'defect': 'buffer changes owner without its allocator'},
+                    'R04.6: %s hands a heap buffer from one container to another on a path where the allocators were neither '
+                    'exchanged/assigned nor compared equal: the block will be released through an allocator that did not produce it (%s)'
+                    % (bn, self.cfg.name),
+                    {'function': f.pretty[:300], 'config': self.cfg.name, 'file': 'source/include/gch/small_vector.hpp'})
 
     def words(self, obj, st, eng):
         P = C = S = None
@@ -102,9 +144,10 @@ class StealRule(PairRule):
         is_swap = len(stolen_from) == 2 and all(stolen_from.get(s) == d for d, s in stolen_from.items())
         if stolen_from:
             self.steal_paths += 1
+            self.check_allocator(stolen_from, touches, eqrets, st, f)
             for dst, src in stolen_from.items():
                 # R09.1
-                bad = [d for (bases, d, cl) in touches if src in bases]
+                bad = [d for (bases, d, cl) in touches if src in bases and not d.startswith('ALLOCATOR:')]
                 dk = ('R09.1', f.name, repr(src), bool(bad))
                 if dk not in self.reports:
                     if bad:
